@@ -10,7 +10,8 @@ import LitexModel.Export.MemImage
        -> J <bank> | <bank> ... # H <bank> | ... # S <bank> | ...
           J: get_csr_json/csv `addr:nwords` per register;  H: get_csr_header(csr_base=csrBaseArg) `addr:nwords`;
           S: get_csr_svd absolute address per simple CSR
-  call decode <busword> <aw> <paging> <off> ; <bank> ; ...   -> `b:i b:i ...` (or `-`) strobed by a 32-bit access
+  call decode <busword> <aw> <paging> <ratio> <off> ; <bank> ; ...   -> `b:i b:i ...` (or `-`) strobed by a 32-bit
+       access (ratio > 1: load through the AXI-Lite wide->32 down-converter, which reads every part of the bus word)
   call accread <busword> <nw> <w0> <w1> ...                  -> value | none      (generated reader on load results)
   call accwrite <busword> <nw> <v>                           -> w0 w1 ... | none  (generated writer's store data)
   call hwwords <big> <busword> <size> <v>                    -> w0 w1 ...         (ascending addresses)
@@ -48,8 +49,8 @@ def call (args : List String) : Option String :=
     let h := (headerAddrs cba cb pg al bw banks).map showEntries
     let s := banks.map fun b => showNats (svdAddrs cb pg bw b)
     some s!"J {showBanks j} # H {showBanks h} # S {showBanks s}"
-  | "decode" :: bw :: aw :: pg :: off :: rest => do
-    some (showHits (hwDecode (← bw.toNat?) (← aw.toNat?) (← pg.toNat?) (← pBanks rest) (← off.toNat?)))
+  | "decode" :: bw :: aw :: pg :: ratio :: off :: rest => do
+    some (showHits (hwDecodeWide (← ratio.toNat?) (← bw.toNat?) (← aw.toNat?) (← pg.toNat?) (← pBanks rest) (← off.toNat?)))
   | "accread" :: bw :: nw :: ws => do
     let bw ← bw.toNat?
     match ctypeBits (← nw.toNat?) bw with
